@@ -22,6 +22,15 @@ from common import T_COMMON
 #                             Artifact() returned while updates complete; the next download must see the update) and random HTTP
 #                             histories through c13.holds.linearizable. (Added after seeded change C13-m6 — response cache in the HTTP
 #                             layer tagged with a ModelVersion read too late — was missed.)
+#   SHARED / STL / TYPED families (go/harness/c13_shared.go; added after seeded changes C13-m16 — a node whose Process() failed keeps its old
+#                             version — and C13-m17 — ApplyMessage decoding into the value the parameter holds — were missed): per family n/10 graphs,
+#                             each with a sequential run (c13.seqx: responses + Version() of EVERY node + ModelVersion vs the fold of seqStep;
+#                             c13.holds.artifact_snapshot: every artifact = Spec of the ONE current valuation; c13.holds.rejected_message_noop;
+#                             c13.holds.results_immutable on everything kept) and a concurrent history (c13.holds.linearizable, results_immutable).
+#                             ERR: interior nodes SHARED by 2..3 producers whose Process() returns an error depending on the parameter values;
+#                             STL: the repo's parameter.File -> stl.ReadNode -> 2..3 stl.ArtifactNode, every other upload truncated (ReadMesh fails);
+#                             TYPED: int/float64/string/bool/vector3/Vector3Array parameters behind adapter nodes, a keeper producer per Vector3Array
+#                             whose artifact keeps the slice, 20-30 % rejected messages (bad JSON; wrong type in first/middle/last element; wrong arity).
 #   n = number of concurrent histories (+ n/5 FILE histories, 2 lines each; + 1+n/300 HTTP servers, 10 lines each); plus n/2 c13.seq lines and n/8 one-client histories through the same oracle.
 # Extra: the same stream built with `go build -race`; a DATA RACE report (exit code 66) fails the extra.
 #   quick: one run in which the stream itself varies GOMAXPROCS 1/2/4/16 per history;
@@ -63,7 +72,7 @@ CFG = dict(
          # the sequential operations inside the critical sections are C11's model: its regenerated skeleton is re-checked here too
          dict(tool="facts", mode="c11.skeleton", out="NodeSkeleton.lean", args=[])],
     facts_files=["c11.go"],
-    modules=["PolyVerif.Props.C13", "PolyVerif.Props.C11Src"],
+    modules=["PolyVerif.Props.C13", "PolyVerif.Props.C13Shared", "PolyVerif.Props.C11Src"],
     theorems=["PolyVerif.C11.outdated_from_source", "PolyVerif.C11.process_from_source",
               "lock_facts_well_locked", "mutex_invariant", "linearizable",
               "programs_correct_all", "prog_refines_atomic", "prog_linearizable", "model_version_regular",
@@ -71,7 +80,8 @@ CFG = dict(
               "fine_refines_atomic", "fine_linearizable", "programs_correct", "critical_section_atomic",
               "locked_artifact_is_atomic",
               "artifact_snapshot", "paramData_snapshot", "completed_before_is_visible", "snapshot_params",
-              "witness_check_sound", "unlocked_mixes_states", "unlocked_not_linearizable"],
+              "witness_check_sound", "unlocked_mixes_states", "unlocked_not_linearizable",
+              "rejected_message_noop"],
     # corollaries / lemmas about the predicates, kernel-checked with the module, not counted as obligations (ignored by the check)
     helper_theorems=["linearizable'", "locked_never_bad", "wellLocked_sound", "artifactTraceS_eval",
                      "spec_depends_on_statics"],
@@ -129,7 +139,14 @@ CFG = dict(
              "evidence) and only the Instance-level families run — check the notes of a run to see which case it was",
              "explicit (non-deferred) Unlock: a panic between Lock and Unlock would leave the mutex held — a deadlock the harness watchdog would show, "
              "not the lock facts; today all three functions defer the Unlock",
-             "malformed JSON in UpdateParameter, unknown node ids / producer names (panic) are not generated; liveness is not claimed",
+             "malformed / mistyped JSON is sent to parameters of every Value type (int, float64, string, bool, vector3, Vector3Array: bad syntax, wrong "
+             "type in the first / a middle / the last element, wrong arity) in the sequential AND concurrent runs of the TYPED family; in the "
+             "model a rejected message is Call.updateRejected (rejected_message_noop: it can be deleted from any sequential run); that the Go "
+             "decoder writes nothing before it fails is checked on the implementation (c13.holds.rejected_message_noop / artifact_snapshot), not proved; "
+             "AABB / Color / Vector2 / Float32 / Image parameters are not in the stream; liveness is not claimed",
+             "processors that return an error: nodes.Struct stores the value returned next to the error and bumps its version, so the model treats a "
+             "failing Process() as an ordinary function (model nodes E, R); the harness nodes' error depends on the mixed input value, the real "
+             "stl.ReadNode fails on truncated uploads; other failing library loaders (spz, gausops, ply) are not in the stream",
              "an unlocked ParameterData alone is caught by the lock facts and the race detector, not by the linearizability oracle "
              "(a single-word read stays linearizable in every recorded history)",
              "C11's guard (the graph is acyclic) is inherited; artifact_snapshot holds for every processor, skipping ones included "
